@@ -41,7 +41,8 @@ RULE = ('family = one cache directory, a source of 1-6 examples and a child-writ
 PROBES = ['directory_chosen_by_the_library', 'directory_name_with_pattern_characters', 'foreign_file_in_directory_at_open', 'examples_stored_as_separate_files', 'killed_inside_cache_set', 'killed_right_after_store', 'acked_index_served_after_kill',
           'inflight_index_after_kill', 'reuse_false_refused', 'copy_outlived_original',
           'directory_removed_on_last_release', 'directory_kept_on_release',
-          'disk_full_raised_on_miss', 'disk_full_hit_still_served', 'store_error_propagated']
+          'disk_full_raised_on_miss', 'disk_full_hit_still_served', 'store_error_propagated',
+          'write_lock_busy_store_retried']
 BUDGET = {
     'quick': {'families': 440, 'wall_cap': 420, 'shrink_s': 15},
     'thorough': {'families': 6000, 'wall_cap': 5400, 'shrink_s': 40},
@@ -94,6 +95,42 @@ def _faulty_setitem(self, key, value):
                 raise OSError(errno.ENOSPC, 'No space left on device (injected)')
             raise sqlite3.OperationalError('database or disk is full (injected)')
     return _orig_setitem(self, key, value)
+
+
+class BusyFault:
+    """another connection holds the sqlite write lock: the N-th attempt to start a
+    write transaction and the k-1 following ones fail with 'database is locked'
+    (what sqlite reports when its busy timeout has expired; the wait itself is
+    virtual)"""
+    countdown = None
+    left = 0
+    fired = 0
+
+
+_orig_sql = diskcache.Cache._sql
+
+
+def _busy_sql(self):
+    ex = self._con.execute
+
+    def execute(statement, *args, **kw):
+        if BusyFault.countdown is not None and isinstance(statement, str) \
+                and statement.lstrip().upper().startswith('BEGIN IMMEDIATE'):
+            if BusyFault.left > 0:
+                BusyFault.left -= 1
+                BusyFault.fired += 1
+                if BusyFault.left == 0:
+                    BusyFault.countdown = None
+                raise sqlite3.OperationalError('database is locked (injected)')
+            BusyFault.countdown -= 1
+            if BusyFault.countdown < 0:
+                BusyFault.left = BusyFault.k - 1
+                BusyFault.fired += 1
+                if BusyFault.left == 0:
+                    BusyFault.countdown = None
+                raise sqlite3.OperationalError('database is locked (injected)')
+        return ex(statement, *args, **kw)
+    return execute
 
 
 BIG = [False]
@@ -384,8 +421,10 @@ def gen_life_ops(rng, n, kind):
             live.remove(h)
         elif r < 0.93:
             ops.append(['disk', rng.choice(['low', 'full', 'ok'])])
-        else:
+        elif r < 0.965:
             ops.append(['store_error', rng.choice(['enospc', 'sqlite']), rng.randrange(0, 3)])
+        else:
+            ops.append(['store_busy', rng.randrange(0, 3), rng.randrange(1, 4)])
     for h in list(live):
         ops.append(['release', h])
     return ops
@@ -560,9 +599,13 @@ def run_life(case):
     saved_du = shutil.disk_usage
     shutil.disk_usage = _fake_disk_usage
     diskcache.Cache.__setitem__ = _faulty_setitem
+    diskcache.Cache._sql = property(_busy_sql)
     Disk.free = 100 * GiB
     StoreFault.countdown = None
     StoreFault.fired = 0
+    BusyFault.countdown = None
+    BusyFault.left = 0
+    BusyFault.fired = 0
     disk = 'ok'
     try:
         up = make_upstream(n, kind)
@@ -615,7 +658,10 @@ def run_life(case):
                 if h not in handles:
                     continue
                 fault_before = StoreFault.fired
+                busy_before = BusyFault.fired
                 e, calls = checked_access(m, ctx, handles[h], n, [k, i], 'handle')
+                if BusyFault.fired > busy_before and e is None:
+                    m.probes['write_lock_busy_store_retried'] = 1
                 trace.append([h, k, i, e.name if e else None])
                 if e is not None:
                     licensed = False
@@ -626,6 +672,9 @@ def run_life(case):
                             e.isa(OSError, sqlite3.OperationalError):
                         licensed = True
                         m.probes['store_error_propagated'] = 1
+                    if BusyFault.fired > busy_before and \
+                            e.isa(diskcache.Timeout, sqlite3.OperationalError):
+                        licensed = True     # loud: the caller knows nothing was stored
                     if not licensed:
                         m.bad('access_raised', 'access_raised:' + e.name,
                               'access %s[%s %s] raised %s without a fault that licenses it '
@@ -672,11 +721,17 @@ def run_life(case):
             elif op[0] == 'store_error':
                 StoreFault.kind, StoreFault.countdown = op[1], op[2]
                 m.fired['store_error_armed'] += 1
+            elif op[0] == 'store_busy':
+                BusyFault.countdown, BusyFault.k, BusyFault.left = op[1], op[2], 0
+                m.fired['store_busy_armed'] += 1
         m.fired['store_error_fired'] += StoreFault.fired
+        m.fired['write_lock_busy_fired'] += BusyFault.fired
     finally:
         shutil.disk_usage = saved_du
         diskcache.Cache.__setitem__ = _orig_setitem
+        diskcache.Cache._sql = _orig_sql
         StoreFault.countdown = None
+        BusyFault.countdown = None
         handles.clear()
         W.set_ctx(None)
         gc.collect()
